@@ -185,7 +185,7 @@ pub fn c10_read_full_hash_twin() {
 	read_case_twin::<6>(false, true, false);
 }
 
-// @verif property=C10,C11,C06:thorough tier=quick mem=24 timeout=3000
+// @verif property=C10,C11,C06 tier=thorough mem=24 timeout=5400
 // @encodes peppi::io::slippi::read (skip-frames path: jump arithmetic, hashed copy instead of seek), parse_header, parse_start, parse_payloads, game_start, parse_event (Game End), HashingReader, tail handling
 // @symbolic 88 random seed of the Game Start block, 6 arbitrary gap bytes, (Game End method concrete)
 // @bound one port-free 0.1 file (1-byte Game End), 6 skipped bytes between Game Start and Game End, no metadata; hashing on (unwind 8200: io::copy zero-fills its 8 KiB stack buffer in a loop)
